@@ -188,6 +188,10 @@ def _plan_standalone(ch):
         p["crash_dt"] = ch.pick("crash_dt", [0.0, 0.01, 0.5, 1.0, 1.3, 2.2, 4.0])
     # injected I/O errors (only in a share of the runs, so the fault-free oracle stays strict)
     p["io_faults"] = []
+    # a slow disk: one file call of a writer takes seconds (SD card, network share) while it holds whatever it holds
+    p["slow_io"] = [1 + ch.choice("slow_n", 8), ch.pick("slow_secs", [1.5, 2.5, 0.5, 6.0])] if ch.flag("slow_disk", 0.25) else None
+    # the injected error carries an errno (ENOSPC) or none at all
+    p["io_errno"] = ch.pick("io_errno", [28, 28, 5, -1])
     if ch.flag("io_faulty", 0.35):
         for _ in range(1 + ch.choice("nio", 2)):
             p["io_faults"].append([ch.pick("io_kind", ["open_w", "write", "replace"]), 1 + ch.choice("io_n", 6)])
@@ -302,6 +306,8 @@ def _execute(ctx, plan, world):
         machine.config["mpf"]["paths"][n] = "data/%s.yaml" % n
     for kind, n in plan["io_faults"]:
         fs.faults.setdefault(kind, set()).add(n)
+    fs.fault_errno = plan.get("io_errno", 28)
+    slow = {"n": 0}
 
     saved = {n: [] for n in names}          # versions handed to save_all, in order (index = position)
     last_seen = {n: -1 for n in names}       # index of the newest version ever observed on disk
@@ -341,11 +347,8 @@ def _execute(ctx, plan, world):
             ctx.violation("not_as_saved", "mismatch", "%s: version %r on disk differs from what was saved (%s): "
                           "disk=%r saved=%r" % (n, data.get("__ver"), where, data, saved[n][cands[-1]]))
             return
-        newer = [i for i in match if i >= last_seen[n]]
-        idx = newer[0] if newer else match[-1]
-        # identical content handed over again later is already on disk
-        while idx + 1 < len(saved[n]) and _eq(saved[n][idx + 1], data):
-            idx += 1
+        # what is on disk cannot tell two hand-overs of identical content apart: read it as the latest of them
+        idx = match[-1]
         if idx < last_seen[n]:
             ctx.violation("went_back", "older_version", "%s: file went back from version index %d to %d (%s)"
                           % (n, last_seen[n], idx, where))
@@ -390,6 +393,14 @@ def _execute(ctx, plan, world):
                 if kind == "replace":
                     ctx.probe("crash_between_tmp_and_rename")
                 do_crash("before %s %s" % (kind, base))
+        if plan.get("slow_io") and th is not None:
+            slow["n"] += 1
+            if slow["n"] == plan["slow_io"][0]:
+                ctx.fault("slow_disk")
+                sched.sleep(plan["slow_io"][1])
+                if sched.killed:
+                    from sim.threads import SimKilled
+                    raise SimKilled()
         sched.yield_point("fs_" + kind)
 
     fs.on_op = on_fs_op
